@@ -30,6 +30,7 @@ type Env struct {
 	qdepth   int                             // inside a quantifier body: no fresh symbols may be introduced
 	lets     map[string]CExpr                // contract-level let definitions, evaluated on first use
 	refOf    func(name string) (TVal, bool)  // address of a captured variable (closures)
+	lenient  bool                            // call-site assertions: an unevaluable subformula in a positive position reads as false
 	// witness hints for top-level existentials of a postcondition being proved (never set when
 	// a contract is assumed at a call site)
 	witness      map[string]CExpr
@@ -238,6 +239,14 @@ func (e *Env) lookup(name string) (TVal, bool) {
 }
 
 func (e *Env) Eval(c CExpr) TVal {
+	if e.lenient {
+		// leniency only travels through &&, || and the consequent of ==>: anything else
+		// (negation, <==>, conditionals, quantifiers, atoms) is evaluated strictly
+		if b, ok := c.(*CBinary); !ok || (b.Op != "&&" && b.Op != "||" && b.Op != "==>") {
+			e.lenient = false
+			defer func() { e.lenient = true }()
+		}
+	}
 	switch c := c.(type) {
 	case *CNum:
 		return mathInt(LitBig(c.V))
@@ -550,7 +559,40 @@ func (e *Env) eqVals(a, b TVal) Term {
 	return And(cs...)
 }
 
+// evalBoolLenient evaluates a subformula of a call-site assertion; ok is false when it names
+// something that does not exist at this call site (the error is swallowed). Only used in positive
+// positions, where replacing the subformula by false can only make the assertion harder to prove.
+func (e *Env) evalBoolLenient(c CExpr) (Term, bool) {
+	n := len(e.x.errs)
+	t := e.EvalBool(c)
+	if len(e.x.errs) > n {
+		e.x.errs = e.x.errs[:n]
+		return "false", false
+	}
+	return t, true
+}
+
 func (e *Env) evalBinary(c *CBinary) TVal {
+	if e.lenient {
+		switch c.Op {
+		case "&&":
+			x, _ := e.evalBoolLenient(c.X)
+			y, _ := e.evalBoolLenient(c.Y)
+			return mathBool(And(x, y))
+		case "||":
+			x, _ := e.evalBoolLenient(c.X)
+			y, _ := e.evalBoolLenient(c.Y)
+			return mathBool(Or(x, y))
+		case "==>":
+			// the antecedent is a negative position: it has to be evaluable (strict, and not
+			// lenient inside); an unevaluable consequent counts as false
+			e.lenient = false
+			x := e.EvalBool(c.X)
+			e.lenient = true
+			y, _ := e.evalBoolLenient(c.Y)
+			return mathBool(Implies(x, y))
+		}
+	}
 	switch c.Op {
 	case "&&":
 		return mathBool(And(e.EvalBool(c.X), e.EvalBool(c.Y)))
